@@ -61,11 +61,29 @@ def shape_st(draw, min_rank=0, max_rank=3, cap=24, max_dim=4):
 
 
 @st.composite
-def structure(draw, mode, cap=24, kinds=('leaf', 'leaf', 'tuple', 'list', 'dict', 'nested', 'stokes', 'stokes'),
+def structure(draw, mode, cap=24, kinds=('leaf', 'leaf', 'tuple', 'list', 'dict', 'nested', 'stokes', 'stokes',
+                                          'related'),
               min_rank=0):
     kind = draw(st.sampled_from(list(kinds)))
     dts = dtypes(mode)
     dt = draw(st.sampled_from(dts))
+    if kind == 'related':
+        # leaves of related shapes (equal shapes separated by a leading/trailing sub-shape), as in
+        # {'tod': (ndet, nsample), 'ground': (ndet,), 'tod2': (ndet, nsample)}
+        base = [draw(st.integers(2, 3)) for _ in range(draw(st.integers(2, 3 if cap >= 24 else 2)))]
+        cut = draw(st.integers(1, len(base) - 1))
+        part = base[:cut] if draw(st.booleans()) else base[cut:]
+        shapes = draw(st.sampled_from([[base, part, base], [base, part, base], [part, base, part],
+                                       [base, base, part], [part, base, base], [base, part], [part, base]]))
+        n = len(shapes)
+        def dtl():
+            return draw(st.sampled_from(dts)) if draw(st.integers(0, 3)) == 0 else dt
+        leaves_ = [St.leaf(sh, dtl()) for sh in shapes]
+        form = draw(st.sampled_from(['tuple', 'list', 'dict']))
+        if form == 'dict':
+            keys = list(draw(st.permutations(['b', 'a', 'c'])))[:n]
+            return {'t': 'dict', 'items': [[k, l] for k, l in zip(keys, leaves_)]}
+        return {'t': form, 'items': leaves_}
     if kind == 'leaf':
         return St.leaf(draw(shape_st(min_rank=min_rank, cap=cap)), dt)
     if kind == 'stokes':
@@ -195,8 +213,12 @@ def g_diag(draw, G, S, zeros=False):
 def g_bdiag(draw, G, S):
     sh = _shapes(S)[0]
     nd = len(sh)
-    k = draw(st.integers(2, 3))
-    form = draw(st.sampled_from(['left', 'right', 'inplace']))
+    k = draw(st.integers(1, 3))  # k == 1 merely adds a length-one axis (size-preserving shape change)
+    form = draw(st.sampled_from(['left', 'right', 'inplace', 'unit2']))
+    if form == 'unit2':
+        # values of shape (1, d) laid on the last axis and on a new leading axis
+        d = sh[-1]
+        return {'k': 'bdiag', 'in': S, 'vals': _arr(draw, (1, d)), 'axis': [-(nd + 1), -1], 'vdtype': vdt(draw, G, S)}
     if form == 'left':
         return {'k': 'bdiag', 'in': S, 'vals': _arr(draw, (k,)), 'axis': -(nd + 1), 'vdtype': vdt(draw, G, S)}
     if form == 'right':
